@@ -58,9 +58,9 @@ def run(ctx):
     thorough = ctx.tier == "thorough"
     exe = ctx.build("d_sidemeta")
     # ---- design level ------------------------------------------------------------------
-    mcs = ["MC_SideMeta_b1.cfg", "MC_SideMeta_b2.cfg", "MC_SideMeta_b4.cfg", "MC_SideMeta_b8.cfg"]
+    mcs = ["MC_SideMeta_b1.cfg", "MC_SideMeta_b2.cfg", "MC_SideMeta_b4.cfg"]
     if thorough:
-        mcs += ["MC_SideMeta_b1_deep.cfg", "MC_SideMeta_b2_deep.cfg", "MC_SideMeta_b4_deep.cfg"]
+        mcs += ["MC_SideMeta_b8.cfg", "MC_SideMeta_b1_deep.cfg", "MC_SideMeta_b2_deep.cfg", "MC_SideMeta_b4_deep.cfg"]
     for c in mcs:
         ctx.tlc_mc("SideMeta.tla", c, spec_dir=sd, require_actions=["Call"])
     mutants = ["MC_SideMeta_mutant_noclear.cfg", "MC_SideMeta_mutant_shift.cfg"]
